@@ -111,6 +111,9 @@ def c13_cases(tier):
                         return "%s.%s declared `%s`%s (%s schema) has the type `%s`, the rule gives `%s`" % (sname, member, sdl, " with a default value" if member in ("w", "dflt") else "", ext, got, rust)
                 return None
             yield case, oracle_in
+    # a field an object re-declares with a narrower type than the interface it implements: typed by the object's declaration
+    for x in c03_narrowing_cases(tier):
+        yield x
 
 
 def c14_cases(tier):
@@ -222,6 +225,24 @@ def c17_more_cases(tier):
         # the same cycle below an inline fragment and below a list
         "fragment NA on Node { __typename id ...NB } fragment NB on Node { __typename id ...NA } query Q { root { __typename ... on Item { items { ...NA } } } }",
     ]
+    # self-referential ABSTRACT types in the schema itself: interfaces that implement each other (or themselves), with implementing objects
+    cyc_schemas = [
+        "interface Node implements Entity { id: ID } interface Entity implements Node { id: ID } type User implements Node & Entity { id: ID name: String } type Query { user: User node: Node }",
+        "interface I implements I { id: ID } type A implements I { id: ID } type Query { a: A i: I }",
+        "interface A implements B { id: ID } interface B implements C { id: ID } interface C implements A { id: ID } type T implements A & B & C { id: ID } type Query { t: T a: A }",
+        "interface Base { id: ID } interface Mid implements Base { id: ID } type Leaf implements Mid & Base { id: ID } type Query { leaf: Leaf base: Base }",
+    ]
+    for cs in cyc_schemas:
+        root = re.search(r"type Query \{ (\w+):", cs).group(1)
+        case = {"schema": cs, "query": "query Q { %s { id } }" % root, "options": {"mode": "cli"}}
+
+        def oracle_c(res, cs=cs):
+            if res.get("timeout"):
+                return "generation does not terminate on a schema whose interfaces implement each other: `%s`" % cs[:110]
+            if res["exit"] != 0:
+                return "the process died with exit status %s on `%s`: %s" % (res["exit"], cs[:100], (res["stderr"] or "").strip()[-120:])
+            return None
+        yield case, oracle_c
     for q in queries:
         case = {"schema": schema, "query": q, "options": {"mode": "cli"}}
 
@@ -256,6 +277,23 @@ def c11_cases(tier):
                 pass
             return None
         yield case, oracle
+    # no other attribute displaces the rename: nullable list members (the ones that get skip_serializing_if on the response side) under
+    # skip_serializing_none, named by a keyword, camelCase, SCREAMING case, an alias
+    case = {"schema": "type N { move: [Int] } type Query { use: [Int!] itemIds: [String] SHOUT_LIST: [Int] plain_list: [Int] nested: N }",
+            "query": "query Q { use itemIds SHOUT_LIST in: plain_list byRef: plain_list nested { move } }", "options": {"mode": "cli", "skip_serializing_none": True}}
+
+    def oracle_skip(res):
+        if res["exit"] != 0 or not res["out"] or not res["out"].get("ok"):
+            return "generation failed under skip_serializing_none"
+        st = _structs(norm(res["out"]["tokens"]))
+        want = {"ResponseData": {"use_": "use", "item_ids": "itemIds", "shout_list": "SHOUT_LIST", "in_": "in", "by_ref": "byRef"}, "QNested": {"move_": "move"}}
+        for sname, members in want.items():
+            for ident, key in members.items():
+                attrs = (st.get(sname) or {}).get(ident, ("", None))[0]
+                if ('rename="%s"' % key) not in attrs:
+                    return "%s.%s does not keep the wire key `%s` under skip_serializing_none (attributes: %s)" % (sname, ident, key, attrs or "none")
+        return None
+    yield case, oracle_skip
     # the other name positions: enum values, variables, input-object members, @oneOf members, aliases - the identifier is escaped, the
     # string on the wire (serde rename / match arm literal) is the GraphQL name itself
     kw2 = [k for k in kws if k not in ("true", "false")]
@@ -671,6 +709,10 @@ def c12_cases(tier):
         "input A { c: C! } input C { and: B } input B { or: D } input D { and: B }",
         "input A { c: C } input C { b: B d: D } input B { d: D } input D { b: B c: [C] }",
         "input A { bs: [B!] b: B } input B { as: [A] a: A }",
+        # the same target through a plain member AND list members, the list declared after the plain one
+        "input A { allOf: [A!] not: A anyOf: [A!] }",
+        "input A { primary: B items: [B!]! } input B { parent: A kids: [A] }",
+        "input A { x: B y: [B] z: [B!]! } input B { a: A l: [A!] }",
     ]
     for g in graphs:
         case = {"schema": g + " type Query { f(a: A): Int }", "query": "query Q($a: A) { f(a: $a) }", "options": {"mode": "cli"}}
@@ -727,11 +769,11 @@ def c09_cases(tier):
     """the wire-relevant projection of the generated code is the same under every combination of the wire-neutral options"""
     schema = ("interface Named { name: String } type HTTPEndpoint implements Named { name: String url: String } type rate_limit implements Named { name: String n: Int } "
               "union Thing = HTTPEndpoint | rate_limit enum Kind { A_b where } scalar Date input In { type: Kind when_at: Date ids: [ID!] } "
-              "type Query { named: Named thing: Thing kind(in: In, plain_arg: Int, id: ID): Kind when: Date }")
-    q = ("fragment N on Named { __typename name } query my_op($in: In, $plain_arg: Int = 5, $id: ID = \"a\") { named { __typename ...N ... on HTTPEndpoint { url } } "
-         "thing { __typename ... on rate_limit { n } } kind(in: $in, plain_arg: $plain_arg, id: $id) when }")
+              "type Query { named: Named thing: Thing obj: HTTPEndpoint kind(in: In, plain_arg: Int, id: ID): Kind when: Date }")
+    q = ("fragment N on Named { __typename name } query my_op($in: In, $plain_arg: Int = 5, $id: ID = \"a\") { named { __typename ...N ... on HTTPEndpoint { __typename url } } "
+         "thing { __typename ... on rate_limit { __typename n } } obj { __typename name } kind(in: $in, plain_arg: $plain_arg, id: $id) when }")
     base = {"mode": "cli"}
-    variants = [{"normalization": "rust"}, {"response_derives": "Debug,Clone,PartialEq"}, {"variables_derives": "Debug,Default"},
+    variants = [{"normalization": "rust"}, {"response_derives": "Debug,Clone,PartialEq"}, {"response_derives": "Serialize"}, {"response_derives": "Debug, serde::Serialize", "variables_derives": "Deserialize"}, {"variables_derives": "Debug,Default"},
                 {"custom_scalars_module": "crate::scalars"}, {"serde_path": "my_serde"},
                 {"normalization": "rust", "response_derives": "Debug", "custom_scalars_module": "crate::s"}]
     base_res = run_case({"schema": schema, "query": q, "options": base})
